@@ -7,6 +7,16 @@ HERE = os.path.dirname(os.path.dirname(os.path.abspath(__file__)))
 
 # id -> (level category, technique, level text, level note, design ref)
 CLAIMED = {
+    "C01": ("exploration",
+            "differential property-based testing: one-shot delivery vs generated read schedule / chunk size / constructor, for all parsers, literal types and input classes; items and final outcome incl. line:column:message compared",
+            "Every generated input (valid in three renderings, mutated, spliced, repository fixtures, arbitrary) is parsed once the way the unit tests do (single read) and once through a generated feed (1-byte reads, short reads, Interrupted, chunk 1..64/4096/default, from_buf_reader); the item sequences and the final outcome including error location and message must be identical. 120k pairs quick / 3M thorough plus long documents that realign with 1000/4096/16384-byte chunks.",
+            "Trusts the scheduled source; a panic occurring identically in both runs is left to C05.",
+            "DESIGN.md section 4, C01"),
+    "C05": ("exploration",
+            "robustness fuzzing with a structured generator (grammar, mutation, hostile headers, arbitrary bytes) in isolated worker processes with a counting global allocator, CPU watchdog and crash attribution; two build profiles",
+            "300k (quick) / 5M (thorough) inputs per run over all nine parser entry points, five literal types and both configs, in a build with overflow checks and debug assertions and in a release build. Oracle: the result is a value (no panic, signal, abort, CPU-limit hit) and the peak heap during the parse is at most 128 x delivered bytes + 256 KiB, measured by a counting allocator; a worker that dies is attributed to the case it was running and reported with a replay file.",
+            "Heap-bound constants are judgement calls documented in DESIGN.md; hang = 60 CPU-seconds twice.",
+            "DESIGN.md section 4, C05"),
     "C02": ("exploration",
             "stateful property-based testing: proptest-generated operation histories x read schedules x constructors, every observer compared with a Vec+cursor reference model after every step",
             "Generated reader histories (200k quick / 5M thorough, plus long inputs with 1000/4096/16384-byte chunks) are interpreted against the real DeferredReader and a reference model; buf/buf_len/buf_ptr/position/mark/is_complete/is_at_end/io_error and the results of request*, advance_with_buf and check_io_error are compared after every operation. Failures are shrunk by proptest and stored as JSON replays.",
